@@ -26,7 +26,7 @@ type faultState struct {
 func (f *faultState) arm(ss ...*FaultSpec) {
 	f.specs, f.done = nil, nil
 	for _, s := range ss {
-		if s != nil {
+		if s != nil && !strings.HasPrefix(s.Kind, "rand-") && !strings.HasPrefix(s.Kind, "net-") {
 			f.specs = append(f.specs, s)
 			f.done = append(f.done, false)
 		}
@@ -244,4 +244,9 @@ func (r *Run) observeStorageCall(ci *CallInfo) {
 			}
 		}
 	}
+}
+
+// anyFault: did an injected fault (storage, crash or entropy) hit the current step?
+func (r *Run) anyFault() bool {
+	return r.Fault.fired || r.Ent.Fired["rand-err"]+r.Ent.Fired["rand-short"] > r.entFiredSeen
 }
